@@ -174,6 +174,11 @@ func localise(t0 ast.Node, compact bool, kind string) string {
 		for i := 0; i+1 < len(st.Statements); i++ {
 			pair := &ast.Statements{Statements: []ast.Node{st.Statements[i], st.Statements[i+1]}}
 			if k, _ := roundTrip(pair, compact); k != "" {
+				for _, st2 := range pair.Statements {
+					if cm := operandComment(st2); cm != "" {
+						return k + "|comment-operand:" + cm + "|stmtpair"
+					}
+				}
 				if e := edgeDesc(st.Statements[i], false); strings.HasSuffix(e, "comment") {
 					if _, top := st.Statements[i].(*ast.Comment); !top {
 						return k + "|comment-operand:" + e + "|stmt-end"
